@@ -49,3 +49,38 @@ Proof.
   destruct s as [| | fn m d wid wf | | |]; try contradiction; [| |destruct wf; [|contradiction]];
     sx; fin.
 Qed.
+
+Lemma nth_error_upd_nth {A} (f : A -> A) : forall (l : list A) n x,
+  nth_error l n = Some x -> nth_error (upd_nth n f l) n = Some (f x).
+Proof.
+  induction l as [|y l IH]; intros [|n] x H; cbn in *; try discriminate.
+  - injection H as ->. reflexivity.
+  - apply IH. exact H.
+Qed.
+
+(* pause() between steps takes effect at once: the process reports paused, the message becomes the status and the
+   previous status is remembered *)
+Lemma pause_now w msg :
+  quiet w -> stepping w = false -> is_terminated w = false ->
+  wp (ctl_call (CPause msg))
+     (fun r w' => r = Ok (CrBool true) /\ paused w' = Some (next_id w) /\ pausing w' = None /\
+                  pre_paused_status w' = status w /\
+                  status w' = (match msg with Some m => Some m | None => status w end) /\ st w' = st w) w.
+Proof.
+  intros [Q1 Q2 Q3 Q4 Q5 Q6 Q7 Q8 Q9 Q10 Q11 Q12] Hstp Hterm.
+  ctl_open. open_world w. cbn in Q1, Q2, Q3, Q4, Q5, Q6, Q7, Q8, Q9, Q10, Q11, Q12, Hstp. subst.
+  destruct msg; sx; fin.
+Qed.
+
+(* play() always leaves the process un-paused, and gives back the status that was there before the pause *)
+Lemma play_restores w fid :
+  cf_fault (cfg w) = None -> cf_listeners (cfg w) = [] -> paused w = Some fid ->
+  wp (ctl_call CPlay)
+     (fun r w' => r = Ok (CrBool true) /\ paused w' = None /\ status w' = pre_paused_status w /\
+                  pre_paused_status w' = None /\ st w' = st w) w.
+Proof.
+  intros Q1 Q2 Hp.
+  ctl_open. open_world w. cbn in Q1, Q2, Hp. subst.
+  sx; fin.
+Qed.
+
